@@ -1,0 +1,8 @@
+//go:build !verif
+
+package sample
+
+import "github.com/cronokirby/saferith"
+
+// verifPrimes is a no-op without the verif build tag.
+func verifPrimes() (p, q *saferith.Nat, ok bool) { return nil, nil, false }
